@@ -559,7 +559,18 @@ func c19Samplers(c *ctx) {
 				if !phiGuarded(v, func(val ssa.Value, fs []core.TFact) bool {
 					return core.PossibleCmp(fs, core.KeyIs(core.TermOf(val)), paramIs(fn, 1))&(core.EQ|core.GT) == 0
 				}) {
-					ok, why = false, "a value >= the bound can be returned"
+					// the rejection loop shared with other samplers: sampleUntil(rand, bits, accept) returns only
+					// values its acceptance predicate said yes to, and the predicate handed in here accepts only try < bound
+					okPred := false
+					if pf := acceptancePredicate(v); pf != nil && len(pf.Params) == 1 {
+						if pfacts, has := core.ReturnFacts(pf, 0, true); has {
+							tf := core.ExpandFacts(pfacts, 1)
+							okPred = core.PossibleCmp(tf, core.KeyIs(core.TermOf(pf.Params[0])), paramIs(fn, 1))&(core.EQ|core.GT) == 0
+						}
+					}
+					if !okPred {
+						ok, why = false, "a value >= the bound can be returned"
+					}
 				}
 			}
 			if !core.HasNilFact(facts, paramIs(fn, 1), false) || core.PossibleCmp(facts, isZero, paramIs(fn, 1)) != core.LT {
@@ -584,7 +595,15 @@ func c19Samplers(c *ctx) {
 				return false
 			}
 			if !g(v, core.TFactsAt(ret.Block(), 0)) && !phiGuarded(v, g) {
-				ok = false
+				okPred := false
+				if pf := acceptancePredicate(v); pf != nil && len(pf.Params) == 1 {
+					if pfacts, has := core.ReturnFacts(pf, 0, true); has {
+						okPred = g(pf.Params[0], core.ExpandFacts(pfacts, 0))
+					}
+				}
+				if !okPred {
+					ok = false
+				}
 			}
 		}
 		c.r.Check(ok && len(rets) > 0, rule, fkey(rule, fn, "result-is-unit"), c.fpos(fn), "returns only values accepted by IsNumberInMultiplicativeGroup(n, ·)", "a value that is not a unit of Z_n can be returned")
@@ -689,4 +708,63 @@ func selectArmReturns(sel *ssa.Select, k int) bool {
 		}
 	}
 	return false
+}
+
+// acceptancePredicate: v is the result of a private helper that returns a value only after a call of
+// its function-typed parameter on that very value returned true (a shared rejection loop); the result is
+// the function bound to that parameter at this call — a closure or a named function — or nil.
+func acceptancePredicate(v ssa.Value) *ssa.Function {
+	c, ok := core.Strip(v).(*ssa.Call)
+	if !ok || c.Call.IsInvoke() {
+		return nil
+	}
+	h := core.Callee(c)
+	if !core.PrivateHelper(h) || h.Signature.Results().Len() != 1 {
+		return nil
+	}
+	var q *ssa.Parameter
+	guard := func(val ssa.Value, fs []core.TFact) bool {
+		for _, f := range fs {
+			if f.Kind != core.FCall || !f.Bool || f.Call.Call.IsInvoke() || len(f.Call.Call.Args) != 1 {
+				continue
+			}
+			p, isP := core.Strip(f.Call.Call.Value).(*ssa.Parameter)
+			if !isP || p.Parent() != h {
+				continue
+			}
+			if _, isFn := p.Type().Underlying().(*types.Signature); !isFn {
+				continue
+			}
+			if core.Strip(f.Call.Call.Args[0]) == core.Strip(val) && (q == nil || q == p) {
+				q = p
+				return true
+			}
+		}
+		return false
+	}
+	n := 0
+	for _, ret := range core.Returns(h) {
+		r := ret.Results[0]
+		if core.IsNilConst(core.Strip(r)) {
+			continue
+		}
+		n++
+		if !guard(r, core.TFactsAt(ret.Block(), 0)) && !phiGuarded(r, guard) {
+			return nil
+		}
+	}
+	if n == 0 || q == nil {
+		return nil
+	}
+	for i, p := range h.Params {
+		if p == q && i < len(c.Call.Args) {
+			switch a := core.Strip(c.Call.Args[i]).(type) {
+			case *ssa.MakeClosure:
+				return a.Fn.(*ssa.Function)
+			case *ssa.Function:
+				return a
+			}
+		}
+	}
+	return nil
 }
